@@ -44,11 +44,14 @@ class ipaddress(FieldType):
             return defang(str(self))
         return str.__format__(str(self), spec)
 
-    def _pack(self) -> int:
+    def _pack(self) -> int | str:
+        if self.val.version == 6 and int(self.val) <= 0xFFFFFFFF:
+            # as an integer this IPv6 address could not be told from an IPv4 address when it is read back
+            return self.val.compressed
         return int(self.val)
 
     @staticmethod
-    def _unpack(data: int) -> ipaddress:
+    def _unpack(data: int | str) -> ipaddress:
         return ipaddress(data)
 
 
